@@ -1060,11 +1060,15 @@ impl CodegenContext {
 
                 if let Some((macro_nx, def)) = def {
                     let parent_scope = self.current_scope_nx;
-                    self.symbol_definition(macro_nx)
-                        .add_usage(DefinitionLocation {
-                            parent_scope,
-                            span: name.span,
-                        });
+                    // Like every other usage, this one is recorded relative to the scope the symbol lives in:
+                    // seen from the invoking scope a nearer symbol that is not a macro may have the same name
+                    if let Some(usage_scope) = self.symbols.parent(macro_nx) {
+                        self.symbol_definition(macro_nx)
+                            .add_usage(DefinitionLocation {
+                                parent_scope: usage_scope,
+                                span: name.span,
+                            });
+                    }
 
                     self.get_evaluator()
                         .expect_args(name.span, args.len(), def.args.len())
